@@ -2,6 +2,7 @@ package main
 
 import (
 	"fmt"
+	"go/constant"
 	"go/token"
 	"go/types"
 	"os"
@@ -274,6 +275,19 @@ func (w *World) Global(short, name string) *ssa.Global {
 		return nil
 	}
 	return p.Var(name)
+}
+
+// NamedConstInt: the integer value of package-level constant short.name, if the package declares one.
+func (w *World) NamedConstInt(short, name string) (int64, bool) {
+	p := w.Pkg(short)
+	if p == nil {
+		return 0, false
+	}
+	nc, ok := p.Members[name].(*ssa.NamedConst)
+	if !ok || nc.Value == nil || nc.Value.Value == nil {
+		return 0, false
+	}
+	return constant.Int64Val(constant.ToInt(nc.Value.Value))
 }
 
 // FuncName gives "bitmap.Rank64" / "bitmap.(*TailBitmap).Set" / "sigbits.ShardByPrefix$1".
